@@ -16,7 +16,7 @@
    the lower-bound invariant). *)
 From Coq Require Import ZArith List Bool Arith.
 Import ListNotations.
-From MV Require Import Time.Spec Static.Build Sched.Timing Sched.Inv Sched.Main Sched.Certify Sched.Quiet Sched.Plane Sched.DataP Sched.PruneRun Sched.Final Sched.Later.
+From MV Require Import Time.Spec Static.Build Sched.Timing Sched.Inv Sched.Main Sched.Certify Sched.Quiet Sched.Plane Sched.DataP Sched.PruneRun Sched.Final Sched.Later Sched.PullRun.
 Open Scope Z_scope.
 
 Theorem C03_partial_events_exactly_once_never_early : forall dt ds i step inp ds',
@@ -104,3 +104,38 @@ Theorem C03_later_outputs_are_not_due : forall st, static_ok st -> forall s j t 
   exists c, cur (sr k) = Some c /\ tlt t (act (out_time st k c ot) d) = true.
 Proof. exact later_outputs_are_later. Qed.
 Print Assumptions C03_later_outputs_are_not_due.
+
+(* over a whole run pre ++ BEGIN(j,t) :: post (no pruning; pruning is unobservable by the theorem above): the inputs
+   of the step are those computed from the FINAL caches of the run - every value a provider produces after the BEGIN
+   has an output time after the requested one, so what the step pulls is the most recent due value of everything the
+   provider EVER produces (C03_final_cache_is_everything_produced: the final cache is the fold of all its outputs) *)
+Theorem C03_pulled_inputs_come_from_the_final_cache : forall st dt, static_ok st -> pull_strict st dt ->
+  (forall i, increasing (init_outputs dt i)) ->
+  forall pre j t m post sp dsp s1 ds1 inp sf dsf,
+  mono_run st dt (init_state st) (init_dstate dt) (pre ++ DBegin j t m :: post) ->
+  dfinal st dt (init_state st) (init_dstate dt) pre = Some (sp, dsp) ->
+  dapply_gen false st dt (sp, dsp) (DBegin j t m) = DOk s1 ds1 (Some inp) ->
+  dfinal st dt s1 ds1 post = Some (sf, dsf) ->
+  (forall src sh flows, In ((src, sh), flows) (pulled dt j) -> look dsp src (thd t - sh) = look dsf src (thd t - sh)) /\
+  inp = fst (gid_core dt (look dsf) (dsp j) j (thd t)).
+Proof. exact pulled_from_final_cache. Qed.
+Print Assumptions C03_pulled_inputs_come_from_the_final_cache.
+
+Theorem C03_final_cache_is_everything_produced : forall st dt evs s ds sf dsf src, dfinal st dt s ds evs = Some (sf, dsf) ->
+  outputs (dsf src) = if d_cache dt then fill (produced src evs) (outputs (ds src)) else outputs (ds src).
+Proof. exact final_cache. Qed.
+Print Assumptions C03_final_cache_is_everything_produced.
+
+(* the premise pull_strict ("due after t" means an output time after t - shift) holds whenever the computable check
+   passes: flat times on both sides of every pulled connection and an input delay that is a plain shift *)
+Theorem C03_pull_strict_certified : forall st dt, pull_strictb st dt = true -> pull_strict st dt.
+Proof. exact pull_strictb_sound. Qed.
+Print Assumptions C03_pull_strict_certified.
+
+Example C03_pull_nonvacuous :
+  let f := mkF true true true false true 0 false false true in
+  let sc := mkScen [None] (fun _ => 0%nat) (fun _ => TimeBased) 2 [mkConn 0 1 2 0 f false 0] [] 3 100 true true in
+  match prepare 100 sc with
+  | Prepared st dt t anc => check_static sc t anc = true /\ pull_strictb st dt = true /\ pulled dt 1 <> []
+  | _ => False end.
+Proof. vm_compute. repeat split; try reflexivity. discriminate. Qed.
